@@ -384,12 +384,19 @@ def simplify_unitary(expr: e.Expr, t_name: str,
             idx1 = obj[i1].idx
             idx2 = obj[i2].idx
             # U_pq U_pr = delta_qr
+            # (if q and r are the same contracted index that occurs nowhere
+            #  else, delta_qq = 1 would drop the sum over q -> leave such a
+            #  pair untouched)
             if idx1[0] == idx2[0] and idx1[0] not in target and \
-                    idx_counter[idx1[0]] == 2:
+                    idx_counter[idx1[0]] == 2 and \
+                    (idx1[1] != idx2[1] or idx1[1] in target
+                     or idx_counter[idx1[1]] > 2):
                 delta = KroneckerDelta(idx1[1], idx2[1])
             # U_qp U_rp = delta_qr
             elif idx1[1] == idx2[1] and idx1[1] not in target and \
-                    idx_counter[idx1[1]] == 2:
+                    idx_counter[idx1[1]] == 2 and \
+                    (idx1[0] != idx2[0] or idx1[0] in target
+                     or idx_counter[idx1[0]] > 2):
                 delta = KroneckerDelta(idx1[0], idx2[0])
             else:  # no matching indices
                 continue
